@@ -28,29 +28,27 @@ two crates, with the reason it cannot influence the output.
 * `env::var`: `TS_RS_EXPORT_DIR` (configuration);
 * lib.rs / serde_json.rs / tokio.rs `HashMap`/`HashSet`/`Mutex`: `impl TS for` those library types. -/
 def orderAllowList : List (String × String × Nat) := [
-  ("macros/src/attr/enum.rs", "HashMap", 2),
-  ("macros/src/attr/mod.rs", "HashMap", 2),
-  ("macros/src/attr/struct.rs", "HashMap", 2),
-  ("macros/src/deps.rs", "HashSet", 5),
-  ("macros/src/lib.rs", "HashMap", 5),   -- +2 since fix aa90858: `concrete: &HashMap<Ident, Type>` parameters, used for `contains_key` only
-  ("macros/src/lib.rs", "HashSet", 3),
-  ("macros/src/utils.rs", "HashMap", 2),
-  ("ts-rs/src/export.rs", "HashMap", 3),
-  ("ts-rs/src/export.rs", "HashSet", 8),
-  ("ts-rs/src/export.rs", "BTreeMap", 4),
-  ("ts-rs/src/export.rs", "BTreeSet", 3),
-  ("ts-rs/src/export.rs", "TypeId", 6),
+  ("macros/src/attr/enum.rs", "HashMap", 1),
+  ("macros/src/attr/struct.rs", "HashMap", 1),
+  ("macros/src/deps.rs", "HashSet", 4),
+  ("macros/src/lib.rs", "HashMap", 1),
+  ("macros/src/lib.rs", "HashSet", 1),
+  ("ts-rs/src/export.rs", "HashMap", 1),
+  ("ts-rs/src/export.rs", "HashSet", 4),
+  ("ts-rs/src/export.rs", "BTreeMap", 3),
+  ("ts-rs/src/export.rs", "BTreeSet", 2),
+  ("ts-rs/src/export.rs", "TypeId", 3),
   ("ts-rs/src/export.rs", "env::var", 1),
-  ("ts-rs/src/export.rs", "Mutex", 3),
-  ("ts-rs/src/export.rs", "OnceLock", 3),
-  ("ts-rs/src/lib.rs", "HashMap", 5),
-  ("ts-rs/src/lib.rs", "HashSet", 2),
-  ("ts-rs/src/lib.rs", "BTreeMap", 2),
-  ("ts-rs/src/lib.rs", "BTreeSet", 2),
-  ("ts-rs/src/lib.rs", "TypeId", 3),
+  ("ts-rs/src/export.rs", "Mutex", 1),
+  ("ts-rs/src/export.rs", "OnceLock", 2),
+  ("ts-rs/src/lib.rs", "HashMap", 4),
+  ("ts-rs/src/lib.rs", "HashSet", 1),
+  ("ts-rs/src/lib.rs", "BTreeMap", 1),
+  ("ts-rs/src/lib.rs", "BTreeSet", 1),
+  ("ts-rs/src/lib.rs", "TypeId", 2),
   ("ts-rs/src/lib.rs", "Mutex", 1),
-  ("ts-rs/src/serde_json.rs", "HashMap", 3),
-  ("ts-rs/src/tokio.rs", "Mutex", 2)]
+  ("ts-rs/src/serde_json.rs", "HashMap", 2),
+  ("ts-rs/src/tokio.rs", "Mutex", 1)]
 
 /-- **inventory = allow-list** (re-proved against the regenerated inventory on every run: a new
 hash container, environment read or thread primitive anywhere in the two crates breaks it) -/
